@@ -271,3 +271,50 @@ def bound_unbound(chk, fns, floor=1):
                           "different addresses depending on whether the label was bound before or after the reference" % miss,
                    key="boundunbound|%s" % fn.name.replace("asmjit::", ""))
     chk.floor(R + ":sites", n, floor)
+
+
+def target_section_used(chk, rb):
+    """R-RELOC-TARGET-SECTION: a case of relocate_to_base that needs the target section adds that section's offset"""
+    R = "R-RELOC-TARGET-SECTION"
+    chk.rule(R, "relocate_to_base: in every case of the RelocType switch that tests `target_section` for null, the relocated value is computed "
+                "from `target_section->offset()` (the case converts an offset inside the target's section into an address): the section the "
+                "reference sits in is not the section it points to")
+    sw = [x for x in rb.ex.values() if x["k"] == "s:SwitchStmt" and "reloc_type" in rb.text(x.get("cond", 0))]
+    chk.need(len(sw) == 1, "relocate_to_base: RelocType switch not found")
+    cases = sorted(sw[0]["cases"], key=lambda c: c.get("l", 0))
+    n = 0
+    for k, c in enumerate(cases):
+        lo = c.get("l", 0)
+        hi = cases[k + 1].get("l", 10 ** 9) if k + 1 < len(cases) else 10 ** 9
+        tests = [i for i, x in rb.ex.items() if lo <= x.get("l", 0) < hi and x["k"] == "unop" and x["op"] == "!" and "target_section" in rb.text(x["sub"])]
+        if not tests:
+            continue
+        n += 1
+        uses = [i for i, x in rb.ex.items() if lo <= x.get("l", 0) < hi and x["k"] == "mcall" and x.get("cn") == "offset" and "target_section" in rb.text(x.get("obj", 0))]
+        chk.ob(R, "relocate_to_base|case %s" % c.get("n"), bool(uses), loc=rb.loc(tests[0]),
+               detail="case %s checks target_section but never adds target_section->offset(): the value is relocated against another section" % c.get("n"),
+               key="reloctarget|%s" % c.get("n"))
+    chk.floor(R + ":cases", n, 1)
+
+
+def bind_label_sections(chk, bl):
+    """R-BIND-TARGET-SECTION: the section recorded in a relocation resolved by bind_label is the label's section"""
+    R = "R-BIND-TARGET-SECTION"
+    chk.rule(R, "bind_label: the value stored in a relocation entry's `_target_section_id` while fix-ups are resolved is the same variable that "
+                "is stored as the label's own section id in that function (a label reference targets the section the label was bound in)")
+    lab, tgt = [], []
+    for i, x in bl.ex.items():
+        if x["k"] == "binop" and x["op"] == "=":
+            p = bl.access_path(x["lhs"]) or ""
+            r = bl.e(bl.strip(x["rhs"]))
+            if r is None or r["k"] != "ref" or "did" not in r:
+                continue
+            if p.endswith("._target_section_id"):
+                tgt.append((i, r["did"], r.get("name")))
+            elif p.endswith("._section_id") and "re." not in p:
+                lab.append((i, r["did"], r.get("name")))
+    chk.need(len(lab) >= 1 and len(tgt) >= 1, "bind_label: section-id assignments not found (%d label, %d relocation)" % (len(lab), len(tgt)))
+    labd = {d for _, d, _ in lab}
+    for k, (i, d, nm) in enumerate(tgt):
+        chk.ob(R, "bind_label|_target_section_id#%d" % k, d in labd, loc=bl.loc(i),
+               detail="`_target_section_id = %s` but the label's section is %s" % (nm, sorted({n_ for _, _, n_ in lab})), key="bindtarget|%d" % k)
